@@ -239,5 +239,11 @@ def align_output(ctx, args, binary=None, stale_out=False):
         p = ctx.sh(binary or ctx.ska, 'align', *args)
     if p.returncode != 0:
         return None, None, p
-    names, seqs = M.parse_fasta(open(out).read() if stale_out else p.stdout)
+    txt = open(out).read() if stale_out else p.stdout
+    fmt = M.fasta_format_problems(txt)
+    if fmt:
+        # a malformed alignment is reported as a failed run whose message says what is wrong with the layout
+        p = type('R', (), {'returncode': 0, 'stdout': p.stdout, 'stderr': 'malformed alignment output: ' + '; '.join(fmt)})()
+        return None, None, p
+    names, seqs = M.parse_fasta(txt)
     return names, seqs, p
